@@ -82,6 +82,13 @@ def map_families(kind, kt, vt, strat):
         [[S(st, "k50", v())], [S(st, "k1", v()), S("LoadAndStore", "k60", v())], [S(ld, "k1"), S(ld, "k50"), S(ld, "k60")]])
     add("F4b-grow-delete", keys, pre + [S(st, "k60", v())],
         [[S("LoadOrStore", "k50", v())], [S(de, "k1"), S(de, "k60")], [S(ld, "k50"), S(ld, "k1")]])
+    # F4c an insert into an EMPTY bucket is in flight while another insert grows the table (the copier must still lock that bucket)
+    EMPTYB = 11
+    pre = [S("BulkStore", lo=1, hi=thr + 1)] + [S(st, k, v()) for k in sorted(full)]
+    fam_keys = dict(full, k50=(FOCUS2, 50), k70=(EMPTYB, 7), k71=(EMPTYB + 32, 8))
+    fam.append(base("F4c-grow-vs-insert-into-empty-bucket/%s[%s]" % (kind, kt), kind, kt, vt,
+                    {"keys": {k: [b, h] for k, (b, h) in fam_keys.items()}, "avoid": [FOCUS, OTHER, EMPTYB]}, pre,
+                    [[S(st, "k50", v())], [S(st, "k70", v()), S(ld, "k70")], [S("LoadOrCompute", "k71", v()), S(ld, "k71")]], ["k1", "k50", "k70", "k71"], strat))
     # F5 delete that empties a bucket -> shrink || insert
     keys = {"k1": (FOCUS, 1), "k2": (OTHER, 2), "k3": (FOCUS2, 3)}
     pre = [S("BulkStore", lo=1, hi=thr + slots + 2), S(st, "k1", v()), S(st, "k2", v()), S("BulkDelete", lo=1, hi=thr + slots + 2)]
@@ -221,6 +228,11 @@ def cache_families(kind, kt, vt, strat):
         [[S("Set", "k50", v(), d=50)], [S("DeleteExpired")], [S("Set", "k60", v(), d=50), S("Get", "k60")]], final=["k1", "k50", "k60"])
     add("G13b-grow-vs-removers", gkeys, gpre,
         [[S("Set", "k50", v(), d=50)], [S("Delete", "k1"), S("Get", "k1")], [S("GetAndDelete", "k2"), S("Get", "k1"), S("Delete", "k1")]], final=["k1", "k2", "k50"])
+    # G15 a shrink of the table under the cache (deletes leave a bucket empty at <= cap/128 entries) || a slow get-or-create of another key
+    skeys = {"k1": (FOCUS, 1), "k2": (OTHER, 2), "k3": (FOCUS2, 3), "k4": (11, 4)}
+    spre = [S("BulkStore", lo=1, hi=thr + slots + 2), S("Set", "k1", v(), d=50), S("Set", "k2", v(), d=50), S("BulkDelete", lo=1, hi=thr + slots + 2)]
+    add("G15-shrink-vs-getorcompute", skeys, spre,
+        [[S("Delete", "k1")], [S("GetOrCompute", "k4", v(), d=50), S("Get", "k4")], [S("Set", "k3", v(), d=50), S("Get", "k2")]], final=["k1", "k2", "k3", "k4"])
     # G10 default expiration changed while stores run
     add("G10-default-swap", two, [],
         [[S("SetDefaultExpiration", d=7)], [S("SetDefault", "k1", v()), S("GetWithExpiration", "k1")], [S("Set", "k2", v(), d=-1000000000), S("GetWithTTL", "k2"), S("DefaultExpiration")]])
